@@ -201,3 +201,225 @@ class FGetState(CExec):
 
 
 ANALYSIS = {"F-STATE": FGetState}
+
+
+class FSetState(CExec):
+    """`_bucket_setstate(self, state)` on an OBJECT-keyed, object-valued unit (the conversions of the integer units are
+    F-CONV's subject): reads the documented tuple back.
+      returns 0  =>  with (items[, next]) what PyArg_ParseTuple took from `state`:
+                     len' == len(items) / 2 <= size';  keys'[j] is items[2j], values'[j] is items[2j+1] for every j < len';
+                     self->next is `next` (NULL when the state has no second element and there was no successor)
+      every PyTuple_GET_ITEM reads inside the tuple (`F-STATE:_bucket_setstate:get_item[<k>]:index-in-bounds`);
+      the vectors are reallocated only to grow, and both or none.
+    With F-STATE on bucket_getstate this is the C round trip of a leaf: y.__setstate__(x.__getstate__()) gives y the
+    entries of x in order and x's successor (items[2j] is x.keys[j] by the one contract, y.keys[j] is items[2j] by the
+    other).  Trusted: PyArg_ParseTuple("O|O") stores the first element and, if present, the second; PyTuple_Size;
+    realloc as in F-LEAF; destructors run by the initial DECREFs do not touch this leaf (A4b)."""
+    family = "F-STATE"
+
+    @classmethod
+    def applies(cls, tu, fn):
+        return fn == "_bucket_setstate"
+
+    def on_entry(self, st):
+        ps = [p for p in self.fn.get("inner", []) if p["kind"] == "ParmVarDecl"]
+        self.S = st.vars[ps[0]["id"]]
+        self.ids = {}
+        for x in walk(self.fn):
+            if x.get("kind") == "VarDecl" and x.get("name") in ("items", "next", "len", "i", "l"):
+                self.ids.setdefault(x["name"], x["id"])
+        if set(self.ids) != {"items", "next", "len", "i", "l"}:
+            raise Unsupported("_bucket_setstate's locals not found")
+        self.loops = [x for x in walk(self.fn) if x.get("kind") == "ForStmt"]
+        if len(self.loops) != 2:
+            raise Unsupported("_bucket_setstate does not have its two loops")
+        self.kinfo = self.vinfo = None
+        for x in walk(self.fn):
+            if x.get("kind") == "MemberExpr" and x.get("name") in ("keys", "values"):
+                q = x.get("type", {}).get("desugaredQualType") or x.get("type", {}).get("qualType", "")
+                t = "*" + _one_star_less(q.replace("const ", "").replace(" ", ""))
+                if x["name"] == "keys":
+                    self.kinfo = t
+                else:
+                    self.vinfo = t
+        if not self.kinfo or "PyObject" not in self.kinfo or "PyObject" not in self.vinfo:
+            raise Unsupported("F-STATE covers _bucket_setstate of object-keyed, object-valued units only")
+        S = self.S
+        for f in ("len", "size", "keys", "values", "next"):
+            self.hread(st, f, S)
+        for m in (self.kinfo, self.vinfo, TUP):
+            st.heap.setdefault(m, z3.Const("H0_" + m, z3.ArraySort(INT, INT)))
+        self.K0, self.V0, self.size0 = self.hread(st, "keys", S), self.hread(st, "values", S), self.hread(st, "size", S)
+        k0, v0, s0 = self.K0, self.V0, self.size0
+        self.assumptions += [S != 0, s0 >= 0, self.hread(st, "len", S) >= 0, self.hread(st, "len", S) <= s0, k0 >= 0, v0 >= 0,
+                             z3.Implies(s0 > 0, z3.And(k0 > 0, v0 > 0)), z3.Or(k0 == 0, v0 == 0, k0 + s0 <= v0, v0 + s0 <= k0)]
+        self.blocks = [(k0, s0), (v0, s0)]
+        self.parsed = False
+        self.j0 = fresh("j0")
+        self.nget = 0
+        self.tuple0 = None
+
+    def havoc_heap(self, st, why, keep=()):
+        return                       # A4 / A4b: no callee touches the leaf's fields, its vectors or the state tuple
+
+    def fresh_block(self, cnt, old):
+        r = fresh("blk")
+        p, oc = old
+        ok = z3.And(r > 0, *[z3.Or(b == 0, r + cnt <= b, b + c <= r) for b, c in self.blocks if b is not p])
+        ok = z3.And(ok, z3.Or(r == p, r + cnt <= p, p + oc <= r))
+        if self.tuple0 is not None:
+            t, n = self.tuple0
+            ok = z3.And(ok, z3.Or(r + cnt <= t, t + n <= r))
+        self.assumptions.append(z3.Or(r == 0, ok))
+        return r
+
+    def on_call(self, name, args, n, st):
+        if name == "PyArg_ParseTuple":
+            self.parsed = True
+            return fresh("parsed")
+        if name in ("PyTuple_Size", "PyTuple_GET_SIZE", "Py_SIZE"):
+            return TLEN(args[0])
+        if name == "PyTuple_GET_ITEM":
+            t, idx = args[0], args[1]
+            k = self.nget
+            self.nget += 1
+            self.oblige(st, "F-STATE:_bucket_setstate:get_item[%d]:index-in-bounds" % k, z3.And(0 <= idx, idx < TLEN(t)))
+            return z3.Select(st.heap[TUP], t + idx)
+        if name in ("BTree_Realloc", "realloc"):
+            from .fsplit import FSplit
+            p = args[0]
+            cnt = FSplit.count_of(self, n["inner"][2], st)
+            which = None
+            for x in walk(n["inner"][1]):
+                if x.get("kind") == "MemberExpr" and x.get("name") in ("keys", "values"):
+                    which = x["name"]
+            if which is None:
+                raise Unsupported("realloc of something that is not self->keys / self->values")
+            mem = self.kinfo if which == "keys" else self.vinfo
+            old = (self.K0, self.size0) if which == "keys" else (self.V0, self.size0)
+            self.oblige(st, "F-STATE:_bucket_setstate:realloc[%s]:grows" % which, z3.And(p == old[0], cnt >= old[1]))
+            r = self.fresh_block(cnt, old)
+            a = z3.Int("a!ra")
+            m0 = st.heap[mem]
+            st.heap[mem] = z3.Lambda([a], z3.If(z3.And(r != 0, r <= a, a < r + old[1]), z3.Select(m0, p + (a - r)), z3.Select(m0, a)))
+            self.blocks = [(b, c) for b, c in self.blocks if b is not old[0]] + [(z3.If(r != 0, r, old[0]), z3.If(r != 0, cnt, old[1]))]
+            return r
+        if name in ("PyType_HasFeature", "Py_TYPE", "PyErr_SetString", "Py_INCREF", "_Py_INCREF", "Py_DECREF", "_Py_DECREF", "Py_XDECREF",
+                    "_Py_IsImmortal", "_Py_Dealloc", "_Py_NewRef", "PyTuple_Check", "PyErr_Occurred", "PyErr_Format"):
+            return fresh("ret_" + name)
+        raise Unsupported("_bucket_setstate calls %s" % name)
+
+    def rv_ArraySubscriptExpr(self, n, st):
+        # PyTuple_GET_ITEM is a macro in this CPython: ((PyTupleObject *)(op))->ob_item[index]
+        base = strip(n["inner"][0])
+        if base.get("kind") == "MemberExpr" and base.get("name") == "ob_item":
+            t = self.rvalue(base["inner"][0], st)
+            idx = self.rvalue(n["inner"][1], st)
+            k = self.nget
+            self.nget += 1
+            self.oblige(st, "F-STATE:_bucket_setstate:get_item[%d]:index-in-bounds" % k, z3.And(0 <= idx, idx < TLEN(t)))
+            return z3.Select(st.heap[TUP], t + idx)
+        return super().rv_ArraySubscriptExpr(n, st)
+
+    def rv_ImplicitCastExpr(self, n, st):
+        # (reads reach the executor as LValueToRValue casts of the subscript)
+        if n.get("castKind") == "LValueToRValue":
+            inner = n["inner"][0]
+            while inner.get("kind") == "ParenExpr":
+                inner = inner["inner"][0]
+            if inner.get("kind") == "ArraySubscriptExpr":
+                base = strip(inner["inner"][0])
+                if base.get("kind") == "MemberExpr" and base.get("name") == "ob_item":
+                    return self.rv_ArraySubscriptExpr(inner, st)
+        return super().rv_ImplicitCastExpr(n, st)
+
+    # the fill loop (ordinal 1); the release loop (ordinal 0) writes nothing that matters here
+    def loop_index(self, n):
+        for k, x in enumerate(self.loops):
+            if x is n:
+                return k
+        return None
+
+    def v(self, st, nm):
+        return st.vars[self.ids[nm]]
+
+    def inv(self, st):
+        S = self.S
+        i, ln, l, items = self.v(st, "i"), self.v(st, "len"), self.v(st, "l"), self.v(st, "items")
+        j0 = self.j0
+        kp, vp = self.hread(st, "keys", S), self.hread(st, "values", S)
+        tm = st.heap[TUP]
+        return {
+            "bounds": z3.And(0 <= i, i <= ln, l == 2 * i, 2 * ln <= TLEN(items), ln <= self.hread(st, "size", S),
+                             z3.Implies(ln > 0, z3.And(kp > 0, vp > 0))),
+            "filled_so_far": z3.Implies(z3.And(0 <= j0, j0 < i), z3.And(
+                z3.Select(st.heap[self.kinfo], kp + j0) == z3.Select(tm, items + 2 * j0),
+                z3.Select(st.heap[self.vinfo], vp + j0) == z3.Select(tm, items + 2 * j0 + 1))),
+            "tuple_untouched": tm == z3.Const("H0_" + TUP, z3.ArraySort(INT, INT)),
+        }
+
+    def assume_invariant(self, n, entry, head):
+        if not isinstance(self, FSetState) or self.loop_index(n) is None:
+            return
+        # `items` / `next` had their address passed to PyArg_ParseTuple, so the loop cutter havocs them at every call;
+        # no loop assigns them and callees do not retain pointers to the caller's locals (cexec's assumption)
+        for nm in ("items", "next"):
+            if self.ids[nm] in entry.vars:
+                head.vars[self.ids[nm]] = entry.vars[self.ids[nm]]
+        if self.loop_index(n) != 1:
+            return
+        for mem in (self.kinfo, self.vinfo):
+            head.heap[mem] = fresh("M", z3.ArraySort(INT, INT))       # written by the loop
+        for f in self.inv(head).values():
+            self.assumptions.append(z3.Implies(head.guard, f))
+
+    def check_invariant(self, n, phase, entry, st):
+        from .fleaf import norm
+        if self.loop_index(n) != 1 or getattr(self, "_trial", False):
+            return
+        if phase == "init":
+            items = self.v(entry, "items")
+            # the state tuple lies apart from the leaf's vectors (old and new)
+            self.tuple0 = (items, TLEN(items))
+            for b, c in self.blocks:
+                self.assumptions.append(z3.Implies(entry.guard, z3.Or(b == 0, b + c <= items, items + TLEN(items) <= b)))
+            self.assumptions.append(z3.Implies(entry.guard, TLEN(items) >= 0))
+        for nm, f in self.inv(st).items():
+            self.oblige(st, "F-STATE:_bucket_setstate:fill:%s:%s" % (phase, nm), norm(f))
+
+    def on_return(self, st, v):
+        from .fleaf import norm
+        if v is None or z3.is_int_value(z3.simplify(v)) and not self.parsed:
+            return
+        S = self.S
+        if self.ids["items"] not in st.vars:
+            return
+        items, ln = self.v(st, "items"), self.hread(st, "len", S)
+        j0 = self.j0
+        kp, vp = self.hread(st, "keys", S), self.hread(st, "values", S)
+        tm = st.heap[TUP]
+        nxt = st.vars.get(self.ids["next"])
+        G = {
+            "length": z3.And(ln == TLEN(items) / 2, ln <= self.hread(st, "size", S)),
+            "entries": z3.Implies(z3.And(0 <= j0, j0 < ln), z3.And(
+                z3.Select(st.heap[self.kinfo], kp + j0) == z3.Select(tm, items + 2 * j0),
+                z3.Select(st.heap[self.vinfo], vp + j0) == z3.Select(tm, items + 2 * j0 + 1))),
+        }
+        if nxt is not None:
+            G["successor"] = self.hread(st, "next", S) == nxt
+        for nm, g in G.items():
+            self.oblige(st, "F-STATE:_bucket_setstate:post:" + nm, norm(z3.Implies(v == 0, g)))
+
+
+class FStateAny(CExec):
+    family = "F-STATE"
+
+    @classmethod
+    def applies(cls, tu, fn):
+        return fn in ("bucket_getstate", "_bucket_setstate")
+
+    def __new__(cls, tu, fname):
+        return {"bucket_getstate": FGetState, "_bucket_setstate": FSetState}[fname](tu, fname)
+
+
+ANALYSIS = {"F-STATE": FStateAny}
